@@ -605,6 +605,7 @@ func (m *multi) Set(s string) error { *m = append(*m, s); return nil }
 func replayMain(args []string) int {
 	fs := flag.NewFlagSet("replay", flag.ExitOnError)
 	quiet := fs.Bool("quiet", false, "print only the verdict")
+	state := fs.Bool("state", false, "print the final state and the raft log even if nothing is violated (development)")
 	fs.Parse(args)
 	if fs.NArg() < 1 {
 		usage()
@@ -614,7 +615,10 @@ func replayMain(args []string) int {
 		fmt.Fprintln(os.Stderr, err)
 		return 2
 	}
-	r := engine.Replay(rf.Config, rf.Actions, engine.Options{Target: rf.Property})
+	r := engine.Replay(rf.Config, rf.Actions, engine.Options{Target: rf.Property, Debug: *state})
+	if *state && r.Violation == nil {
+		fmt.Print(r.Final)
+	}
 	if r.ToolError != "" {
 		fmt.Fprintf(os.Stderr, "tool error: %s\n", r.ToolError)
 		return 2
